@@ -227,6 +227,33 @@ macro_rules! impl_ty {
                 format!("{out} len={} declared={declared} delim={} evt={evt} tail={tail} same={}", bytes.len(), u8::from(delim_ok), u8::from(same))
             }
 
+            /// Encrypt with the REAL `HybridReport::encrypt` to base key `kid % N_BASE_KEYS` and describe the
+            /// two sealed parts (read back through the real accessors) as log entries.
+            #[allow(clippy::too_many_arguments)]
+            pub fn encrypt_real(evt: u8, kid: u8, mk: &[u8], btt: &[u8], site: &str, ts: u64, eps: u64, sens: u64, rng: &mut Rng) -> (Vec<u8>, Vec<String>) {
+                let match_key = Replicated::<BA64>::deserialize(GenericArray::from_slice(mk)).unwrap();
+                let k = usize::from(kid) % N_BASE_KEYS;
+                let mut keys = vec![base_keys()[0].clone(); usize::from(kid) + 1];
+                keys[usize::from(kid)] = base_keys()[k].clone();
+                let reg = Reg(keys);
+                let (report, info_enc): (HybridReport<$bk, $v>, Vec<u8>) = if evt == 0 {
+                    let info = HybridImpressionInfo::new(kid);
+                    let e = info.to_enc_bytes().to_vec();
+                    (HybridReport::Impression(HybridImpressionReport { match_key, breakdown_key: Replicated::<$bk>::deserialize(GenericArray::from_slice(btt)).unwrap(), info }), e)
+                } else {
+                    let info = HybridConversionInfo { key_id: kid, conversion_site_domain: site.to_string(), timestamp: ts, epsilon: f64::from_bits(eps), sensitivity: f64::from_bits(sens) };
+                    let e = info.to_enc_bytes().to_vec();
+                    (HybridReport::Conversion(HybridConversionReport { match_key, value: Replicated::<$v>::deserialize(GenericArray::from_slice(btt)).unwrap(), info }), e)
+                };
+                let bytes = report.encrypt(kid, &reg, rng).unwrap();
+                let enc = Enc::try_from(Bytes::from(bytes.clone())).unwrap();
+                let log = vec![
+                    format!("{k}:{}:{}:{}:{}", hex(&info_enc), hex(mk), hex(enc.encap_key_mk()), hex(enc.mk_ciphertext())),
+                    format!("{k}:{}:{}:{}:{}", hex(&info_enc), hex(btt), hex(enc.encap_key_btt()), hex(enc.btt_ciphertext())),
+                ];
+                (bytes, log)
+            }
+
             pub fn stream(reg: &Reg, chunks: Vec<Vec<u8>>) -> String {
                 let body = BodyStream::from_bytes_stream(futures::stream::iter(
                     chunks.into_iter().map(|c| Ok::<Bytes, BoxError>(Bytes::from(c))),
@@ -443,6 +470,17 @@ fn honest_spec(ty: &str, evt: u8, kid: u8, site: &[u8], ts: u64, eps: u64, sens:
     Spec { evt, seal_key: usize::from(kid) % N_BASE_KEYS, key_id_byte: kid, mk: rng.bytes(16), btt: rand_btt(ty, evt, rng), info_wire, info_enc }
 }
 
+/// An honest record produced by the real encryption path (site must be a `str`; NUL / non-ASCII allowed
+/// because the info is built as a struct literal), logged for the model's ideal AEAD.
+#[allow(clippy::too_many_arguments)]
+fn real_record(ty: &str, log: &mut Log, evt: u8, kid: u8, site: &str, ts: u64, eps: u64, sens: u64, rng: &mut Rng) -> Vec<u8> {
+    let mk = rng.bytes(16);
+    let btt = rand_btt(ty, evt, rng);
+    let (bytes, entries) = dispatch!(ty, encrypt_real(evt, kid, &mk, &btt, site, ts, eps, sens, rng));
+    log.0.extend(entries);
+    bytes
+}
+
 const F64_PATTERNS: [u64; 10] = [
     0,                       // +0.0
     0x8000_0000_0000_0000,   // -0.0
@@ -475,9 +513,9 @@ fn gen_parse(rng: &mut Rng, thorough: bool) -> Vec<String> {
         }
         // valid records of both kinds; all truncations
         let mut log = Log::default();
-        let imp = build(&mut log, &honest_spec(ty, 0, 0, &[], 0, 0, 0, rng), rng);
-        let conv0 = build(&mut log, &honest_spec(ty, 1, 0, &[], 0, 0, 0, rng), rng);
-        let conv2 = build(&mut log, &honest_spec(ty, 1, 1, b"ab", 1_729_707_432, 0x4014_0000_0000_0000, 0x3ff1_9999_9999_999a, rng), rng);
+        let imp = real_record(ty, &mut log, 0, 0, "", 0, 0, 0, rng);
+        let conv0 = real_record(ty, &mut log, 1, 0, "", 0, 0, 0, rng);
+        let conv2 = real_record(ty, &mut log, 1, 1, "ab", 1_729_707_432, 0x4014_0000_0000_0000, 0x3ff1_9999_9999_999a, rng);
         for rec in [&imp, &conv0, &conv2] {
             for n in 0..=rec.len() {
                 push(&mut out, reg_full, &log, &rec[..n]);
@@ -712,18 +750,19 @@ fn gen_flip(rng: &mut Rng, thorough: bool) -> Vec<String> {
     let mut out = vec![];
     let tys: &[&str] = if thorough { &["8_3", "32_7"] } else { &["8_3"] };
     for ty in tys {
-        let mut specs = vec![
-            honest_spec(ty, 0, 0, &[], 0, 0, 0, rng),
-            honest_spec(ty, 1, 0, b"meta.com", 1_729_707_432, 0x4014_0000_0000_0000, 0x3ff1_9999_9999_999a, rng),
+        let site64 = String::from_utf8(ascii_site(64, rng)).unwrap();
+        let mut specs: Vec<(u8, u8, &str, u64, u64, u64)> = vec![
+            (0, 0, "", 0, 0, 0),
+            (1, 0, "meta.com", 1_729_707_432, 0x4014_0000_0000_0000, 0x3ff1_9999_9999_999a),
         ];
         if thorough {
-            specs.push(honest_spec(ty, 0, 3, &[], 0, 0, 0, rng));
-            specs.push(honest_spec(ty, 1, 2, &[], 0, 0, 0, rng));
-            specs.push(honest_spec(ty, 1, 1, &ascii_site(64, rng), u64::MAX, F64_PATTERNS[4], F64_PATTERNS[1], rng));
+            specs.push((0, 3, "", 0, 0, 0));
+            specs.push((1, 2, "", 0, 0, 0));
+            specs.push((1, 1, &site64, u64::MAX, F64_PATTERNS[4], F64_PATTERNS[1]));
         }
-        for s in &specs {
+        for &(evt, kid, site, ts, eps, sens) in &specs {
             let mut log = Log::default();
-            let rec = build(&mut log, s, rng);
+            let rec = real_record(ty, &mut log, evt, kid, site, ts, eps, sens, rng);
             out.push(format!("c10.parse {ty} 0,1,2,3 {} {}", log.show(), hex(&rec)));
             for bit in 0..8 * rec.len() {
                 out.push(format!("c10.flip {ty} 0,1,2,3 {} {} {bit}", log.show(), hex(&rec)));
@@ -870,9 +909,9 @@ fn gen_stream(rng: &mut Rng, thorough: bool) -> Vec<String> {
     let reg = "0,1,2,3";
     let mut log = Log::default();
     let recs: Vec<Vec<u8>> = vec![
-        build(&mut log, &honest_spec(ty, 0, 0, &[], 0, 0, 0, rng), rng),
-        build(&mut log, &honest_spec(ty, 1, 1, b"meta.com", 5, 6, 7, rng), rng),
-        build(&mut log, &honest_spec(ty, 0, 2, &[], 0, 0, 0, rng), rng),
+        real_record(ty, &mut log, 0, 0, "", 0, 0, 0, rng),
+        real_record(ty, &mut log, 1, 1, "meta.com", 5, 6, 7, rng),
+        real_record(ty, &mut log, 0, 2, "", 0, 0, 0, rng),
     ];
     let frame = |r: &[u8]| {
         let mut v = u16::try_from(r.len()).unwrap().to_le_bytes().to_vec();
